@@ -12,7 +12,7 @@ func init() {
 		Explanation: "Armor writer typestate and reader rejections decided on all paths of armor/armor.go: (R08.1) every base64 Decode/DecodeString call of the library is dominated by a rejection of CR and LF in its operand (encoding/base64 skips them silently); " +
 			"(R08.2) header-before-footer: on every path through armoredWriter.Close to the footer write, either a header write succeeded earlier on the path or the started flag is known true, and `started` is set only after a successful header write or when already set; " +
 			"(R08.3) reader rejections dominate acceptance of a body line: at most ColumnsPerLine columns, at least one, a short line must be followed by exactly the footer, the first non-blank line must equal the header, trailing data must be whitespace shorter than the bound; " +
-			"(R08.4) every non-nil error returned by Read is produced by setErr or is the remembered r.err, and setErr wraps everything but io.EOF in *armor.Error; (R08.5) the clean end is produced only by drainTrailing behind a footer line; plus the armor constants and encoder/decoder recipes of both halves.",
+			"(R08.4) every non-nil error returned by Read is produced by setErr or is the remembered r.err, and setErr wraps everything but io.EOF in *armor.Error; (R08.5) the clean end is produced only by drainTrailing behind a footer line; plus the armor constants and encoder/decoder recipes of both halves. (R08.7) no package-level state behind the armor reader/writer and the wrapping encoder; (R08.8) the wrapping encoder has no block-wise encoding path next to the streaming encoder.",
 		NotDecided:  "that text and bytes are in bijection on the accepted set (value property); WrappedBase64Encoder's column arithmetic.",
 		Assumptions: []string{"base64.StdEncoding.Strict() rejects non-canonical padding bits", "encoding/base64 ignores \\r and \\n in its input"},
 		Technique:   "static analysis: typestate by acyclic path enumeration over go/ssa, dominance guards, who-may-produce lists",
